@@ -203,6 +203,74 @@ theorem makeBlock_valid_fails :
   cases h1
 
 
+theorem weightedTimes_pos (sigs : List CommitSig) (vs : ValSet) (hp : ∀ v ∈ vs, 0 < v.power) :
+    ∀ y ∈ weightedTimes sigs vs, 0 < y.2 := by
+  intro y hy
+  unfold weightedTimes at hy
+  rw [List.mem_filterMap] at hy
+  obtain ⟨s, _, hs⟩ := hy
+  split at hs
+  · cases hs
+  · split at hs
+    · rename_i v hv
+      simp only [Option.some.injEq] at hs
+      subst hs
+      exact hp v (List.mem_of_find?_eq_some hv)
+    · cases hs
+
+/-- **Exactly when a correct proposer's block validates.** For proposer inputs admissible in
+every other respect (`ProposerInput`) and a previous validator set with positive powers, the block
+`MakeBlock` builds is accepted IF AND ONLY IF (above the initial height) the last commit's included
+votes satisfy: `2F + 2 ≤ T`, where `F` is the voting power of the included votes stamped at or
+before the last block time and `T` the power of all included votes — or nobody stamped that early
+(`F = 0`; the degenerate third disjunct is a commit without any counted vote and a last block time
+before year 1). Sufficient and necessary: `makeBlock_valid_partial` is the `⇐` half,
+`makeBlock_valid_fails` an instance of `⇒` at `T = 2F + 1`. -/
+theorem makeBlock_valid_iff (env : Env) (st : State) (h : Int) (txs : List Bytes) (c : Commit)
+    (evs : List Ev) (prop : Bytes) (hin : ProposerInput env st h txs c evs prop)
+    (hp : ∀ v ∈ st.lastVals, 0 < v.power) :
+    validateBlock env st (makeBlock env st h txs c evs prop) = .ok () ↔
+      (st.initialHeight < h →
+        let wt := weightedTimes c.sigs st.lastVals
+        2 * lowWeight st.lastBlockTime wt + 2 ≤ totalWeight wt ∨
+        (lowWeight st.lastBlockTime wt = 0 ∧ wt ≠ []) ∨ (wt = [] ∧ st.lastBlockTime < zeroTime)) := by
+  have hpos := weightedTimes_pos c.sigs st.lastVals hp
+  have htime : ∀ (hlt : st.initialHeight < h),
+      (makeBlock env st h txs c evs prop).header.time = medianTime c st.lastVals := by
+    intro hlt
+    have hne : ¬ h = st.initialHeight := by omega
+    show (if (h == st.initialHeight) = true then st.lastBlockTime else medianTime c st.lastVals) = _
+    simp only [beq_iff_eq, hne, if_false]
+  constructor
+  · intro hv hlt
+    rw [validate_iff_spec] at hv
+    obtain ⟨_, _, _, _, _, _, _, _, _, hT, _⟩ := hv
+    have := hT hlt
+    rw [htime hlt] at this
+    exact (weightedMedian_gt_iff _ _ hpos).mp this
+  · intro hcond
+    rw [validate_iff_spec]
+    refine ⟨c, rfl, rfl, ?_, hin.commitBasic, hin.evBasic, hin.height, hin.commit, hin.propVal, ?_,
+      hin.evSize, hin.evAdm⟩
+    · exact ⟨hin.vb, hin.chain, hin.hpos, hin.lbid, hin.hc, hin.hd, hin.he, hin.propLen, hin.hv,
+        hin.hnv, hin.hp, hin.lrh⟩
+    · intro hlt
+      have hlt : st.initialHeight < h := hlt
+      rw [htime hlt]
+      exact (weightedMedian_gt_iff _ _ hpos).mpr (hcond hlt)
+
+/-- the block time a correct proposer computes lies between the earliest and latest correct
+vote (`Lemmas.median_between_correct` on the commit's weighted times) -/
+theorem blockTime_between_correct (c : Commit) (vs : ValSet) (lo hi : Time)
+    (hp : ∀ v ∈ vs, 0 < v.power)
+    (hcorrect : ∃ y ∈ weightedTimes c.sigs vs, lo ≤ y.1 ∧ y.1 ≤ hi)
+    (hearly : 2 * lowWeight (lo - 1) (weightedTimes c.sigs vs) + 2 ≤ totalWeight (weightedTimes c.sigs vs)
+      ∨ lowWeight (lo - 1) (weightedTimes c.sigs vs) = 0)
+    (hlate : 2 * (totalWeight (weightedTimes c.sigs vs) - lowWeight hi (weightedTimes c.sigs vs))
+      ≤ totalWeight (weightedTimes c.sigs vs) + 1) :
+    lo ≤ medianTime c vs ∧ medianTime c vs ≤ hi :=
+  median_between_correct _ lo hi (weightedTimes_pos c.sigs vs hp) hcorrect hearly hlate
+
 /-- With the contents and the proposer fixed, the state determines the whole header: two
 accepted blocks cannot differ in any other header field. -/
 theorem header_determined (env : Env) (st : State) (b b' : Block) (hlbh : 0 ≤ st.lastBlockHeight)
@@ -289,8 +357,9 @@ def CommitRanges (c : Commit) : Prop :=
 transactions within that budget, the marshalled block (all length prefixes included) is within
 `MaxBytes`. Hypotheses: `MaxBytes ≤ MaxBlockSizeBytes` (`ValidateConsensusParams`); the commit has
 at most one signature slot per previous validator, each passing `CommitSig.ValidateBasic`; the
-header's fields are within `HeaderBounds` — application hash up to 173 bytes, far beyond the
-`tmhash.Size` for which `MaxHeaderBytes` was computed. -/
+header's fields are within `HeaderBounds` — application hash up to 182 bytes (header ≤ 619), far
+beyond the `tmhash.Size` for which `MaxHeaderBytes` was computed. For 183..189 bytes the header is
+still within `MaxHeaderBytes` but the claim is false: `size_fits_at_header_budget_fails`. -/
 theorem size_fits (env : Env) (st : State) (h : Int) (txs : List Bytes) (c : Commit)
     (evs : List Ev) (prop : Bytes) (d : Int)
     (hM : st.params.blockMaxBytes ≤ maxBlockSizeBytes)
@@ -303,6 +372,89 @@ theorem size_fits (env : Env) (st : State) (h : Int) (txs : List Bytes) (c : Com
     st.lastVals.length (commitSize_le c _ hsigs hn hr.1 hr.2.1 hr.2.2) d
   · exact hbud
   · exact hreap
+
+/-- `Block.Size()` spelled out: four tags, four length prefixes, four payloads -/
+theorem blockSize_eq (b : Block) (c : Commit) (hc : b.lastCommit = some c) :
+    blockSize b = 4 + sov (headerSize b.header) + sov (dataSize b.txs) + sov (evListSize b.evidence)
+      + sov (commitSize c) + headerSize b.header + dataSize b.txs + evListSize b.evidence
+      + commitSize c := by
+  unfold blockSize fMsg
+  rw [hc]
+  simp only
+  omega
+
+/-- **Exactly when the proposer's block fits**, with the mempool filling the data budget to the
+last byte (`dataSize txs = d`): the block is within `MaxBytes` iff header + commit + the four
+length prefixes stay within what `MaxDataBytes` set aside for them:
+`MaxHeaderBytes + MaxCommitBytes(n) + MaxOverheadForBlock − 4`. The four prefixes take 5..14
+bytes, `MaxOverheadForBlock − 4` allows 7. -/
+theorem size_fits_exact (env : Env) (st : State) (h : Int) (txs : List Bytes) (c : Commit)
+    (evs : List Ev) (prop : Bytes) (d : Int)
+    (hbud : proposalDataBudget st (evByteSize evs) = some d) (hfull : (dataSize txs : Int) = d) :
+    (blockSize (makeBlock env st h txs c evs prop) : Int) ≤ st.params.blockMaxBytes ↔
+      ((sov (headerSize (makeHeader env st h txs c evs prop)) + sov (dataSize txs) + sov (evListSize evs)
+        + sov (commitSize c) + headerSize (makeHeader env st h txs c evs prop) + commitSize c : Nat) : Int)
+        ≤ 626 + (94 + 111 * (st.lastVals.length : Int)) + 7 := by
+  rw [blockSize_eq (makeBlock env st h txs c evs prop) c rfl]
+  obtain ⟨hd1, _⟩ := maxDataBytes_some hbud
+  show ((4 + sov (headerSize (makeHeader env st h txs c evs prop)) + sov (dataSize txs) + sov (evListSize evs)
+      + sov (commitSize c) + headerSize (makeHeader env st h txs c evs prop) + dataSize txs + evListSize evs
+      + commitSize c : Nat) : Int) ≤ _ ↔ _
+  unfold evByteSize at hd1
+  omega
+
+/-! ### the witness: every field at its maximum, header exactly `MaxHeaderBytes` -/
+
+def xLBT : Time := -315619199000000100          -- 1960, nanoseconds 999999900
+def xVals : ValSet := [⟨wAddr 1, [1], 1, 0⟩]
+def xBID : BlockID := ⟨wHash, 268435456, wHash⟩
+def xState : State :=
+  { versionBlock := 11, versionApp := 9223372036854775808, chainID := List.replicate 50 122,
+    initialHeight := 4611686018427387904, lastBlockHeight := 4611686018427387904, lastBlockID := xBID,
+    lastBlockTime := xLBT, nextVals := xVals, vals := xVals, lastVals := xVals,
+    lastHeightValsChanged := 4611686018427387904,
+    params := { wParams with blockMaxBytes := 17226, evMaxBytes := 0 },
+    lastHeightParamsChanged := 4611686018427387904, lastResultsHash := wHash,
+    appHash := List.replicate 189 7 }
+def xCommit : Commit :=
+  { height := 4611686018427387904, round := 268435456, blockID := xBID,
+    sigs := [⟨2, wAddr 1, xLBT + 50, List.replicate 64 1⟩] }
+def xTxs : List Bytes := [List.replicate 16381 0]
+
+theorem xHeader (txs : List Bytes) :
+    headerSize (makeHeader wEnv xState 4611686018427387905 txs xCommit [] (wAddr 1)) = 626 := by
+  set_option maxRecDepth 8192 in
+  rfl
+
+theorem xData : dataSize xTxs = 16384 := by
+  simp only [xTxs, dataSize, List.length_replicate]
+  decide
+
+/-- **`size_fits` is false at the header budget.** With the header exactly `MaxHeaderBytes` = 626
+bytes (a 189-byte application hash, every other field at the maximum its type allows) the block a
+correct proposer builds from a mempool that fills `MaxDataBytes` exceeds `MaxBytes`: the four
+length prefixes need 8 bytes here (up to 14 in general), `MaxOverheadForBlock` budgets 11 − 4 = 7. -/
+theorem size_fits_at_header_budget_fails :
+    ¬ (∀ (env : Env) (st : State) (h : Int) (txs : List Bytes) (c : Commit) (evs : List Ev)
+        (prop : Bytes) (d : Int),
+        st.params.blockMaxBytes ≤ maxBlockSizeBytes →
+        proposalDataBudget st (evByteSize evs) = some d → (dataSize txs : Int) ≤ d →
+        (∀ s ∈ c.sigs, badCommitSig s = false) → c.sigs.length ≤ st.lastVals.length →
+        CommitRanges c → (headerSize (makeHeader env st h txs c evs prop) : Int) ≤ maxHeaderBytes →
+        (blockSize (makeBlock env st h txs c evs prop) : Int) ≤ st.params.blockMaxBytes) := by
+  intro H
+  have hh := xHeader xTxs
+  have hc : commitSize xCommit = 205 := by decide
+  have h1 := H wEnv xState 4611686018427387905 xTxs xCommit [] (wAddr 1) 16384 (by decide) (by decide)
+    (by rw [xData]; decide) (by decide) (by decide) (by unfold CommitRanges; decide)
+    (by rw [hh]; decide)
+  rw [blockSize_eq _ xCommit rfl] at h1
+  have hd : dataSize (makeBlock wEnv xState 4611686018427387905 xTxs xCommit [] (wAddr 1)).txs = 16384 := xData
+  have hhd : headerSize (makeBlock wEnv xState 4611686018427387905 xTxs xCommit [] (wAddr 1)).header = 626 := hh
+  have he : evListSize (makeBlock wEnv xState 4611686018427387905 xTxs xCommit [] (wAddr 1)).evidence = 0 := rfl
+  rw [hd, hhd, he, hc] at h1
+  revert h1
+  decide
 
 /-- **The transition is a function of (state, block id, header, application results)**: two nodes
 that feed equal inputs to `updateState` hold equal next states (so equal `State.Bytes()`); the
@@ -682,5 +834,14 @@ example : let env := concreteEnv (fun _ => wHash) (fun _ _ _ _ _ => none) (fun _
     let b := makeBlock env wState 2 [] gCommit [] (wAddr 2)
     (∀ x : Bytes, ((fun (_ : Bytes) => wHash) x).length = 32) ∧ validateBlock env wState b = .ok () := by
   refine ⟨fun _ => rfl, by rfl⟩
+
+example : ∀ v ∈ wState.lastVals, 0 < v.power := by decide
+
+/-- `accepted_commit_two_thirds`: a block accepted under C07's `VerifyCommit` model (every
+signature verifies, constant `H`) above the initial height -/
+example : validateBlock (cvEnv (fun _ => wHash) (fun _ _ _ => true) (fun _ _ => true)) wState
+      (makeBlock (cvEnv (fun _ => wHash) (fun _ _ _ => true) (fun _ _ => true)) wState 2 [] gCommit [] (wAddr 2))
+      = .ok () ∧ (2 : Int) ≠ wState.initialHeight := by
+  refine ⟨by rfl, by decide⟩
 
 end Tmv.Props.C06
